@@ -27,6 +27,7 @@ CLAIMED = {
  "C15": ("model_checking", "s6 C15", "Ownership model (own/user map pointers, built-in workspace) explored exhaustively by TLC (NoDangling, NoSharedWorkspace; broken twins rejected); one script per transition replayed with stateful maps on optimizers in a poisoned arena; every evaluation of every live object is validated against the exact result for its own configuration; spline-object copies by bit identity."),
  "C16": ("model_checking", "s6 C16", "Verdict coherence and rejection paths are model-checked (OptObj, PPolyObj); every single placement of a non-finite value, durations around the 1 ms threshold, size mismatches and valid/invalid sequences are replayed through both overloads and judged against Valid(inputs, order) evaluated exactly on the logged bits; PPolyND rejection kinds and at() bounds likewise."),
  "C19": ("model_checking", "s6 C19", "The self-check procedure is a TLA+ state machine checked by TLC (restore after every component, final evaluation at x; broken twin rejected); recorded checkGradients results for correct and lying functors are validated: analytical vs the exact pipeline result for the claimed partials, numerical vs the exact true gradient, norms, verdict and workspace state."),
+ "C12": ("model_checking", "s6 C12", "TLC explores every interleaving of concurrent evaluators (lazy layout fill split into steps) and of executor tasks under a happens-before race definition (2 broken twins rejected); on the real class every segment-order permutation, thread partitions and 2..4 concurrently evaluating threads on a freshly configured optimizer must return the bits of the serial calls, and the same scripts run race-free under ThreadSanitizer. Defect F2 (unsynchronised lazy layout fill) was found this way and repaired by a fix: commit."),
 }
 PENDING = {}
 checks = []
